@@ -80,7 +80,7 @@ ChainWords(ch) == {<<ch[k], IF k = Len(ch) THEN ENDW ELSE ch[k + 1]>> : k \in 1.
 FatPairs == UNION {ChainWords(img.samples[s].chain) : s \in 1..Len(img.samples)}
 
 \* ---- actions ------------------------------------------------------------------------------
-Init == /\ img = [samples |-> <<>>, partials |-> <<>>, patches |-> <<>>, perfs |-> <<>>, vols |-> <<>>, fatver |-> 1]
+Init == /\ img = [samples |-> <<>>, partials |-> <<>>, patches |-> <<>>, perfs |-> <<>>, vols |-> <<>>, fatver |-> 1, spread |-> FALSE]
         /\ done = FALSE
         /\ goal \in [ns : 1..MaxSamples, npt : 1..MaxPartials, npa : 1..MaxPatches, npf : 1..MaxPerfs, nv : 0..MaxVols]
 
@@ -132,9 +132,12 @@ NewVol ==
        img' = [img EXCEPT !.vols = Append(@, [name |-> <<"Volume A", "Vol B">>[Len(img.vols) + 1], perfs |-> ps])]
   /\ UNCHANGED <<done, goal>>
 
+\* Records are addressed by INDEX (pointer lists hold indices); the id area only holds COUNTS.  "spread" places
+\* performance / patch / partial / sample k > 0 at index k + 4 (free slots below, as after deletions), so that an
+\* orphan performance can sit at an index >= the number of performances.
 Finish ==
   /\ ~done /\ Len(img.perfs) = goal.npf /\ Len(img.vols) = goal.nv
-  /\ \E fv \in {1, 2} : img' = [img EXCEPT !.fatver = fv]
+  /\ \E fv \in {1, 2}, spread \in BOOLEAN : img' = [img EXCEPT !.fatver = fv, !.spread = spread]
   /\ done' = TRUE /\ UNCHANGED goal
 
 Next == NewSample \/ NewPartial \/ NewPatch \/ NewPerf \/ NewVol \/ Finish
